@@ -8,6 +8,8 @@ from fractions import Fraction
 
 import math
 
+import zlib
+
 import numpy as np
 
 import core
@@ -43,7 +45,14 @@ def _one(ctx, C, Pc, tol, kind, meta):
             if tol is None:          # the library's documented default (1e-6), not passed
                 g = C.completion_from_root_finding(np.array(Pc), coef_type="P")
             else:
-                g = C.completion_from_root_finding(np.array(Pc), coef_type="P", tol=tol)
+                cform = zlib.crc32(repr(([complex(z) for z in Pc], tol, "call-form")).encode()) % 3
+                ctx.count("calling-form:" + ["keywords", "positional", "numpy-scalar-tol"][cform])
+                if cform == 1:
+                    g = C.completion_from_root_finding(np.array(Pc), "P", None, tol)
+                elif cform == 2:
+                    g = C.completion_from_root_finding(np.array(Pc), coef_type="P", tol=np.float64(tol))
+                else:
+                    g = C.completion_from_root_finding(np.array(Pc), coef_type="P", tol=tol)
         out = ("ok", g)
     except Exception as e:  # noqa
         out = (type(e).__name__, str(e)[:60])
